@@ -251,6 +251,7 @@ static WorkC cold_start_case(int nthreads) {
 }
 
 int main(int argc, char **argv) {
+  vf::ctx().no_twin = true;  // expensive cases: no twin prelude
   for (int i = 1; i + 1 < argc; i++)
     if (std::string(argv[i]) == "--repeats") {
       g_repeats = atoi(argv[i + 1]);
